@@ -1,10 +1,12 @@
 (* C05 — a dry run predicts exactly what the real run then does.  Statements only. *)
-From Tempren Require Import Base.Str Py.PathLib FS.Model FS.Lemmas Pipe.Pipeline Pipe.DryRun Pipe.DrySim Pipe.Scenarios.
+From Tempren Require Import Base.Str Py.PathLib FS.Model FS.Lemmas FS.PlainPaths Pipe.Pipeline Pipe.DryRun Pipe.DrySim Pipe.Scenarios.
+From Tempren Require Import FS.WfCheck Corr.PipeCorr Pipe.DryEqualsReal Pipe.DryEqualsRealCheck.
 Open Scope N_scope.
 
 (* FULL STATEMENT (not proved as one theorem; decided by the paired runs of harness/c05.py + the correspondence):
      name mode: forall c plan s, (r_status, r_report) (run {c with dry}) = (r_status, r_report) (run {c with not dry}).
-   PROVED below: the step-level simulation the full statement rests on. *)
+   PROVED below: the step-level simulation the full statement rests on, and (at the end of this file,
+   theorems C05_dry_equals_real_name_mode...) the full statement for name mode on plans of plain paths. *)
 
 (* The dry-run bookkeeping.  [vexists E0 cr rm k] is DryRunRenamer's "exists" for name k over ANY on-disk existence
    map E0: (on disk or created) and not removed.  One dry step makes the destination exist, the source not exist
@@ -58,3 +60,189 @@ Example C05_relative_keys_refuted :
   r_report (run (f28_cfg fixed true) f28_plan [] f28_fs) = r_report (run (f28_cfg fixed false) f28_plan [] f28_fs) /\
   r_status (run (f28_cfg fixed true) f28_plan [] f28_fs) = r_status (run (f28_cfg fixed false) f28_plan [] f28_fs).
 Proof. vm_compute. repeat split; discriminate. Qed.
+
+
+(* ======================================================================================================== *)
+(* The full statement, name mode (Pipe/DryEqualsReal.v).                                                    *)
+(*                                                                                                          *)
+(* Hypotheses (all are definitions of Pipe/DryEqualsReal.v, all have sound boolean checkers in              *)
+(* Pipe/DryEqualsRealCheck.v):                                                                              *)
+(*  - plain_plan s plan: every File(input directory, relative path) has  chdir s dir = Some dir  (a real    *)
+(*    directory reached without links), no ".." in dir or in the relative path, pp_root = 0, non-empty      *)
+(*    parts, every proper prefix below dir is a directory ENTRY of s, and dir ++ parts is a REGULAR FILE    *)
+(*    of s (a file may be designated any number of times); length dir + length parts < walk_fuel (the       *)
+(*    model's kernel walk answers ELOOP beyond walk_fuel = 120 components; a modelling bound).              *)
+(*    Regular file, not just "non-directory": C05_symlink_source_refuted below shows that the statement     *)
+(*    is FALSE in the model when the plan renames a symbolic link and reuses its name.                      *)
+(*  - dest_not_link s plan: where parent/new-name is taken on the initial tree, it is not a symbolic link   *)
+(*    (Path.resolve() in the containment test would follow it).                                             *)
+(*  - no_override c: strategy stop or ignore, or manual where no answer parses to "override" or to          *)
+(*    "custom path".                                                                                        *)
+(* rendered values are arbitrary RText / RAbs / RRaise: invalid names raise the same error in both runs,    *)
+(* the name ".." (accepted by with_name) is a conflict with the parent directory in both runs.              *)
+(* [cfg_set_dry] is the [set_dry] of the statement ([Pipeline.set_dry] is already DryRunRenamer's update).  *)
+Theorem C05_dry_equals_real_name_mode : forall c plan cwd s,
+  c_mode c = MName -> c_fault c = None -> c_var c = fixed -> WF s ->
+  plain_plan s plan -> dest_not_link s plan -> no_override c ->
+  let d := run (cfg_set_dry c true) plan cwd s in
+  let r := run (cfg_set_dry c false) plan cwd s in
+  r_status d = r_status r /\ r_report d = r_report r /\ r_prompts d = r_prompts r.
+Proof. exact dry_equals_real_name_mode. Qed.
+Print Assumptions C05_dry_equals_real_name_mode.
+
+(* Every strategy and every answer, override and custom paths included: additionally no rendered name is     *)
+(* ".." (no_dotdot_names), where a new name is taken on the initial tree it is taken by a regular file      *)
+(* (dest_replaceable: os.rename onto a directory fails, the dry run does not notice:                        *)
+(* C05_override_onto_directory_refuted), and the lines typed at the manual prompt, read as paths, are       *)
+(* single names other than ".." (custom_paths_single).                                                      *)
+Theorem C05_dry_equals_real_name_mode_override : forall c plan cwd s,
+  c_mode c = MName -> c_fault c = None -> c_var c = fixed -> WF s ->
+  plain_plan s plan -> dest_not_link s plan -> no_dotdot_names plan ->
+  dest_replaceable s plan -> custom_paths_single c ->
+  let d := run (cfg_set_dry c true) plan cwd s in
+  let r := run (cfg_set_dry c false) plan cwd s in
+  r_status d = r_status r /\ r_report d = r_report r /\ r_prompts d = r_prompts r.
+Proof. exact dry_equals_real_name_mode_override. Qed.
+Print Assumptions C05_dry_equals_real_name_mode_override.
+
+(* The general form both are instances of; it also gives the same terminating exception (r_error).          *)
+(* OVR / CUS: may a conflict be resolved by overriding / by a custom path.                                   *)
+Theorem C05_dry_equals_real_name_mode_general : forall (OVR CUS : Prop) c plan cwd s,
+  c_mode c = MName -> c_fault c = None -> c_var c = fixed -> WF s ->
+  plain_plan s plan -> dest_not_link s plan ->
+  (OVR -> no_dotdot_names plan) -> (OVR -> dest_replaceable s plan) -> answers_ok OVR CUS c ->
+  let d := run (cfg_set_dry c true) plan cwd s in
+  let r := run (cfg_set_dry c false) plan cwd s in
+  r_status d = r_status r /\ r_report d = r_report r /\ r_prompts d = r_prompts r /\ r_error d = r_error r.
+Proof. exact dry_equals_real_name_mode_general. Qed.
+Print Assumptions C05_dry_equals_real_name_mode_general.
+
+(* The renamer-level simulation: one call of the renamer in the dry and in the real world, related by Sim    *)
+(* (virtual existence = existence on the real disk, same directories and links, same report / stdin /       *)
+(* prompt count), gives the same outcome and related worlds.                                                 *)
+Theorem C05_sim_renamer : forall s0 st answers (OVR CUS : Prop), WF s0 ->
+  forall wd wr d src dst ov wd' ed wr' er,
+  Sim s0 st OVR CUS wd wr -> plain_rel s0 d src -> plain_rel s0 d dst -> skel s0 (d ++ pp_parts src) = None ->
+  (ov = true -> skel s0 (d ++ pp_parts dst) = None /\ pp_parts src <> pp_parts dst) ->
+  renamer (cD st answers) wd d src dst ov = (wd', ed) -> renamer (cR st answers) wr d src dst ov = (wr', er) ->
+  ed = er /\ Sim s0 st OVR CUS wd' wr'.
+Proof. exact sim_renamer. Qed.
+Print Assumptions C05_sim_renamer.
+
+(* The pass-level simulations the run-level theorems are assembled from. *)
+Theorem C05_sim_first_pass : forall s0 st answers (OVR CUS : Prop), WF s0 ->
+  forall plan wd wr cwd bl wd' cd' bd' ed wr' cr' br' er,
+  plain_plan s0 plan -> dest_not_link s0 plan ->
+  (OVR -> no_dotdot_names plan) -> (OVR -> dest_replaceable s0 plan) ->
+  Forall (plain_entry s0 OVR) bl -> Sim s0 st OVR CUS wd wr ->
+  first_pass (cD st answers) plan wd cwd bl = (wd', cd', bd', ed) ->
+  first_pass (cR st answers) plan wr cwd bl = (wr', cr', br', er) ->
+  ed = er /\ cd' = cr' /\ bd' = br' /\ Forall (plain_entry s0 OVR) bd' /\ Sim s0 st OVR CUS wd' wr'.
+Proof. exact sim_first_pass. Qed.
+Print Assumptions C05_sim_first_pass.
+
+Theorem C05_sim_second_pass : forall s0 st answers (OVR CUS : Prop), WF s0 ->
+  match st with Stop | Ignore => True | Manual => Forall (answer_ok OVR CUS) answers | Override => OVR end ->
+  forall bl wd wr cwd wd' cd' ed wr' cr' er,
+  Forall (plain_entry s0 OVR) bl -> Sim s0 st OVR CUS wd wr ->
+  second_pass (cD st answers) bl wd cwd = (wd', cd', ed) -> second_pass (cR st answers) bl wr cwd = (wr', cr', er) ->
+  ed = er /\ Sim s0 st OVR CUS wd' wr'.
+Proof. exact sim_second_pass. Qed.
+Print Assumptions C05_sim_second_pass.
+
+(* Non-vacuity: the two-root tree of F3 (in/x, in/y, in2/x: equal relative names in both roots) with a        *)
+(* colliding plan (in/x -> X, in/y -> X, in2/x -> X).  The hypotheses hold (checked by the sound boolean     *)
+(* checker), so the theorems apply; and concretely: under stop both runs report two renames and end with    *)
+(* status 1, under override both report three (the last one overriding) and end with 0, at the manual       *)
+(* prompt "c" + "Z" both rename in/y to Z after 2 prompt lines.                                              *)
+Definition c05_ex_plan : list (pfile * rendered) :=
+  mk_plan [([[105;110]], [120], RText [88]); ([[105;110]], [121], RText [88]); ([[105;110;50]], [120], RText [88])].
+Definition c05_ex_cfg (st : strategy) (ans : list str) : cfg :=
+  {| c_mode := MName; c_strategy := st; c_dry := false; c_answers := ans; c_fault := None; c_var := fixed |}.
+
+Example C05_dry_equals_real_nonvacuous :
+  (WF f3_fs /\ plain_plan f3_fs c05_ex_plan /\ dest_not_link f3_fs c05_ex_plan /\
+   no_dotdot_names c05_ex_plan /\ dest_replaceable f3_fs c05_ex_plan) /\
+  (let d := run (cfg_set_dry (c05_ex_cfg Stop []) true) c05_ex_plan [] f3_fs in
+   let r := run (cfg_set_dry (c05_ex_cfg Stop []) false) c05_ex_plan [] f3_fs in
+   r_status d = 1%Z /\ r_status r = 1%Z /\ r_report d = r_report r /\ length (r_report r) = 2%nat) /\
+  (let d := run (cfg_set_dry (c05_ex_cfg Override []) true) c05_ex_plan [] f3_fs in
+   let r := run (cfg_set_dry (c05_ex_cfg Override []) false) c05_ex_plan [] f3_fs in
+   r_status d = 0%Z /\ r_status r = 0%Z /\ r_report d = r_report r /\ length (r_report r) = 3%nat) /\
+  (let d := run (cfg_set_dry (c05_ex_cfg Manual [[99]; [90]]) true) c05_ex_plan [] f3_fs in
+   let r := run (cfg_set_dry (c05_ex_cfg Manual [[99]; [90]]) false) c05_ex_plan [] f3_fs in
+   r_status d = 0%Z /\ r_status r = 0%Z /\ r_report d = r_report r /\ r_prompts d = 2%nat /\ r_prompts r = 2%nat).
+Proof.
+  split; [apply c05_covered_override_b_sound; vm_compute; reflexivity|].
+  vm_compute. repeat split; reflexivity.
+Qed.
+
+(* ... and obtained from the theorems rather than by running both *)
+Example C05_dry_equals_real_instance :
+  let d := run (cfg_set_dry (c05_ex_cfg Stop []) true) c05_ex_plan [] f3_fs in
+  let r := run (cfg_set_dry (c05_ex_cfg Stop []) false) c05_ex_plan [] f3_fs in
+  r_status d = r_status r /\ r_report d = r_report r /\ r_prompts d = r_prompts r.
+Proof.
+  destruct (c05_covered_b_sound f3_fs c05_ex_plan eq_refl) as [W [PP NL]].
+  apply dry_equals_real_name_mode; try assumption; try reflexivity.
+Qed.
+
+Example C05_dry_equals_real_override_instance :
+  let c := c05_ex_cfg Manual [[111]; [99]; [90]] in         (* "o", "c", "Z" *)
+  let d := run (cfg_set_dry c true) c05_ex_plan [] f3_fs in
+  let r := run (cfg_set_dry c false) c05_ex_plan [] f3_fs in
+  r_status d = r_status r /\ r_report d = r_report r /\ r_prompts d = r_prompts r.
+Proof.
+  destruct (c05_covered_override_b_sound f3_fs c05_ex_plan eq_refl) as [W [PP [NL [ND DR]]]].
+  apply dry_equals_real_name_mode_override; try assumption; try reflexivity.
+  unfold custom_paths_single. cbn [c_strategy c05_ex_cfg c_answers].
+  repeat constructor; (eexists; split; [vm_compute; reflexivity | discriminate]).
+Qed.
+
+(* the name "..": in/s/a rendered to ".." is a conflict with the directory in/s/.. = in, in both runs *)
+Definition c05_dd_fs : fs := [([[105;110]], NDir); ([[105;110]; [115]], NDir); ([[105;110]; [115]; [97]], NFile 1)].
+Definition c05_dd_plan : list (pfile * rendered) := mk_plan [([[105;110]], [115;47;97], RText [46;46])].
+
+Example C05_dotdot_name_covered :
+  c05_covered_b c05_dd_fs c05_dd_plan = true /\ no_dotdot_names_b c05_dd_plan = false /\
+  (let d := run (cfg_set_dry (c05_ex_cfg Stop []) true) c05_dd_plan [] c05_dd_fs in
+   let r := run (cfg_set_dry (c05_ex_cfg Stop []) false) c05_dd_plan [] c05_dd_fs in
+   r_status d = 1%Z /\ r_status r = 1%Z /\ r_report d = [] /\ r_report r = []).
+Proof. vm_compute. repeat split; reflexivity. Qed.
+
+(* The hypotheses are needed: without them the statement is false in the model, and in the implementation   *)
+(* (open known findings F30 and F29 of known_findings.json; DryRunRenamer never changes the disk, while     *)
+(* Path.resolve() and os.rename() look at the disk).  The theorems above cover the complement:              *)
+(* regular-file sources + dest_not_link exclude F30, no_override resp. no_dotdot_names + dest_replaceable   *)
+(* exclude F29.                                                                                             *)
+(* 1. (F30) in/l is a symbolic link to /out/z, in/a a file; plan l -> m, a -> l.  Real run: l is renamed     *)
+(*    away, so "in/l" is free and inside: two renames, status 0.  Dry run: the containment test still        *)
+(*    follows the link on the untouched disk to /out/z: InvalidDestinationError, status 1.                   *)
+Definition c05_link_fs : fs :=
+  [([[105;110]], NDir); ([[105;110]; [108]], NLink 1 {| up_abs := true; up_comps := [[111;117;116]; [122]] |});
+   ([[105;110]; [97]], NFile 2); ([[111;117;116]], NDir)].
+Definition c05_link_plan : list (pfile * rendered) :=
+  mk_plan [([[105;110]], [108], RText [109]); ([[105;110]], [97], RText [108])].
+
+Example C05_symlink_source_refuted :
+  let d := run (cfg_set_dry (c05_ex_cfg Stop []) true) c05_link_plan [] c05_link_fs in
+  let r := run (cfg_set_dry (c05_ex_cfg Stop []) false) c05_link_plan [] c05_link_fs in
+  wf_b c05_link_fs = true /\ plain_plan_b c05_link_fs c05_link_plan = false /\
+  r_status d = 1%Z /\ r_status r = 0%Z /\ length (r_report d) = 1%nat /\ length (r_report r) = 2%nat.
+Proof. vm_compute. repeat split; reflexivity. Qed.
+
+(* 2. (F29) --conflict override with a destination that is an existing directory (in/a -> "s", in/s a        *)
+(*    directory): the dry run reports the rename as an override and ends with 0, os.rename raises            *)
+(*    IsADirectoryError: 126.  The same with the name ".." (C05_dotdot_name_covered's plan under override).  *)
+Definition c05_ovdir_fs : fs := [([[105;110]], NDir); ([[105;110]; [97]], NFile 1); ([[105;110]; [115]], NDir)].
+Definition c05_ovdir_plan : list (pfile * rendered) := mk_plan [([[105;110]], [97], RText [115])].
+
+Example C05_override_onto_directory_refuted :
+  let d := run (cfg_set_dry (c05_ex_cfg Override []) true) c05_ovdir_plan [] c05_ovdir_fs in
+  let r := run (cfg_set_dry (c05_ex_cfg Override []) false) c05_ovdir_plan [] c05_ovdir_fs in
+  c05_covered_b c05_ovdir_fs c05_ovdir_plan = true /\ dest_replaceable_b c05_ovdir_fs c05_ovdir_plan = false /\
+  r_status d = 0%Z /\ r_status r = 126%Z /\ length (r_report d) = 1%nat /\ r_report r = [] /\
+  (let d2 := run (cfg_set_dry (c05_ex_cfg Override []) true) c05_dd_plan [] c05_dd_fs in
+   let r2 := run (cfg_set_dry (c05_ex_cfg Override []) false) c05_dd_plan [] c05_dd_fs in
+   r_status d2 = 0%Z /\ r_status r2 = 126%Z).
+Proof. vm_compute. repeat split; reflexivity. Qed.
